@@ -587,11 +587,12 @@ theorem closedAt_with_path (C : Crypto) (hC : HashWF C) (bs : Array Bytes) (n : 
     from the extra slot exactly when its turn comes (`verifyUpgrade_consumed`) and reports it as consumed, so no stored
     node is needed.  The changeset holds the reference roots, length and byte length of `n`, the writer's signature,
     and is commitable; every node it records is a reference node. -/
-theorem honest_new_block_upgrade_accepted (C : Crypto) (hC : HashWF C) (bs : Array Bytes) (m n : Nat) (c : Core) (d : Disk) (held : Nat → Bool)
+theorem honest_new_block_upgrade_accepted_at (C : Crypto) (hC : HashWF C) (bs : Array Bytes) (m n : Nat) (c : Core) (d : Disk) (held : Nat → Bool)
     (h : RepRAt C bs m c d held) (hm0 : 0 < m) (hmn : m < n) (hn : n ≤ bs.size) (us : List (Nat × Nat))
     (hup : Up m 0 (rootsStack n).reverse us) (sig : Bytes) (hsl : sig.length = 64)
-    (hver : C.verify c.publicKey (signableAt C bs n c.tree.fork) sig = true) (i : Nat) (hmi : m ≤ i) (hi : i < n) :
-    ∃ (a b : List (Nat × Nat)) (k : Nat) (cs' : Changeset), us = a ++ (k, i / 2 ^ k) :: b ∧ (i / 2 ^ k + 1) * 2 ^ k ≤ n ∧ m ≤ i / 2 ^ k * 2 ^ k
+    (hver : C.verify c.publicKey (signableAt C bs n c.tree.fork) sig = true) (i : Nat)
+    (a b : List (Nat × Nat)) (k : Nat) (hsplit : us = a ++ (k, i / 2 ^ k) :: b) :
+    ∃ (cs' : Changeset), (i / 2 ^ k + 1) * 2 ^ k ≤ n ∧ m ≤ i / 2 ^ k * 2 ^ k
       ∧ c.tree.verifyProof C d.tree
           ⟨c.tree.fork, some ⟨i, bs.getD i [], sibPath C bs 0 i k⟩, none, none,
             some ⟨m, n - m, (a ++ b).map (fun p => nodeAt C bs p.1 p.2), [], sig⟩⟩ c.publicKey = .ok cs'
@@ -602,16 +603,12 @@ theorem honest_new_block_upgrade_accepted (C : Crypto) (hC : HashWF C) (bs : Arr
       ∧ cs'.nodes.length ≤ 64 + 2 * us.length + (2 * k + 1) := by
   have hN : n < 2 ^ 64 := by have := h.small.1; omega
   have hcov := up_cover m n _ 0 us (cover_roots n) hup
-  obtain ⟨p, hp, hp1, hp2⟩ := cover_find hcov i hmi hi
-  obtain ⟨k, o⟩ := p
-  simp only at hp1 hp2
-  have hdiv : i / 2 ^ k = o := div_eq_of_span i k o hp1 hp2
-  obtain ⟨a, b, rfl⟩ := List.append_of_mem hp
+  generalize hdiv : i / 2 ^ k = o at hsplit
+  subst hsplit
+  have hp : (k, o) ∈ a ++ (k, o) :: b := by simp
   have hbound := up_bound m n _ 0 _ (cover_roots n) hup (k, o) hp
   have hlow := up_lower m n _ 0 _ (cover_roots n) hup (k, o) hp
   simp only at hbound hlow
-  refine ⟨a, b, k, ?_⟩
-  rw [hdiv]
   -- the plain upgrade from the replica's own changeset
   have hinv0 := inv_changeset C bs m c d held h
   obtain ⟨csg, g1, g2, g4, g5, g7, g8, g9, g10, g11, g12, _⟩ := grow_upgrade_accepted C hC bs c.tree d.tree m n hN hm0 hmn c.tree.fork c.publicKey sig
@@ -683,7 +680,7 @@ theorem honest_new_block_upgrade_accepted (C : Crypto) (hC : HashWF C) (bs : Arr
     induction kk with
     | zero => intro dd oo; rfl
     | succ kk ihk => intro dd oo; simp only [upPath, List.length_append, ihk, List.length_cons, List.length_nil]; omega
-  refine ⟨addOld (upPath C bs 0 i k ++ [nodeAt C bs 0 i]) csg, rfl, hbound, hlow, ?_, hroots, g2.length, g2.bytes, g7, g5, g4, ?_, ?_, hclosed, ?_,
+  refine ⟨addOld (upPath C bs 0 i k ++ [nodeAt C bs 0 i]) csg, hbound, hlow, ?_, hroots, g2.length, g2.bytes, g7, g5, g4, ?_, ?_, hclosed, ?_,
     by rw [show (addOld _ csg).ancestors = csg.ancestors from rfl, g10]; rfl, by rw [show (addOld _ csg).origLength = csg.origLength from rfl, g8]; rfl, g11, ?_⟩
   · unfold verifyProof
     simp only [verifyTree, untrustedOf, noSeekOf, Option.isNone_some, Bool.false_and, Bool.false_eq_true,
@@ -704,5 +701,33 @@ theorem honest_new_block_upgrade_accepted (C : Crypto) (hC : HashWF C) (bs : Arr
     rw [hnodes']
     simp only [List.length_append, List.length_cons, hdl, Changeset.nodes, List.length_reverse] at g12 ⊢
     omega
+
+/-- the block lies under exactly one node of the honest position list -/
+theorem split_exists (m n : Nat) (us : List (Nat × Nat)) (hup : Up m 0 (rootsStack n).reverse us) (i : Nat) (hmi : m ≤ i) (hi : i < n) :
+    ∃ (a b : List (Nat × Nat)) (k : Nat), us = a ++ (k, i / 2 ^ k) :: b := by
+  have hcov := up_cover m n _ 0 us (cover_roots n) hup
+  obtain ⟨p, hp, hp1, hp2⟩ := cover_find hcov i hmi hi
+  obtain ⟨k, o⟩ := p
+  simp only at hp1 hp2
+  have hdiv : i / 2 ^ k = o := div_eq_of_span i k o hp1 hp2
+  obtain ⟨a, b, e⟩ := List.append_of_mem hp
+  exact ⟨a, b, k, by rw [hdiv]; exact e⟩
+
+theorem honest_new_block_upgrade_accepted (C : Crypto) (hC : HashWF C) (bs : Array Bytes) (m n : Nat) (c : Core) (d : Disk) (held : Nat → Bool)
+    (h : RepRAt C bs m c d held) (hm0 : 0 < m) (hmn : m < n) (hn : n ≤ bs.size) (us : List (Nat × Nat))
+    (hup : Up m 0 (rootsStack n).reverse us) (sig : Bytes) (hsl : sig.length = 64)
+    (hver : C.verify c.publicKey (signableAt C bs n c.tree.fork) sig = true) (i : Nat) (hmi : m ≤ i) (hi : i < n) :
+    ∃ (a b : List (Nat × Nat)) (k : Nat) (cs' : Changeset), us = a ++ (k, i / 2 ^ k) :: b ∧ (i / 2 ^ k + 1) * 2 ^ k ≤ n ∧ m ≤ i / 2 ^ k * 2 ^ k
+      ∧ c.tree.verifyProof C d.tree
+          ⟨c.tree.fork, some ⟨i, bs.getD i [], sibPath C bs 0 i k⟩, none, none,
+            some ⟨m, n - m, (a ++ b).map (fun p => nodeAt C bs p.1 p.2), [], sig⟩⟩ c.publicKey = .ok cs'
+      ∧ cs'.roots = rootsAt C bs n ∧ cs'.length = n ∧ cs'.byteLength = psum bs n ∧ cs'.upgraded = true ∧ cs'.signature = some sig
+      ∧ cs'.fork = c.tree.fork ∧ c.tree.commitable cs' = true ∧ (∀ x ∈ cs'.nodes, ∃ dd o, x = nodeAt C bs dd o ∧ (o + 1) * 2 ^ dd ≤ n)
+      ∧ ClosedAt C bs n (vt c.tree cs') d.tree ∧ nodeAt C bs 0 i ∈ cs'.nodes
+      ∧ cs'.ancestors = c.tree.length ∧ cs'.origLength = c.tree.length ∧ cs'.hash = some (rootsHash C cs'.roots)
+      ∧ cs'.nodes.length ≤ 64 + 2 * us.length + (2 * k + 1) := by
+  obtain ⟨a, b, k, hsplit⟩ := split_exists m n us hup i hmi hi
+  obtain ⟨cs', hrest⟩ := honest_new_block_upgrade_accepted_at C hC bs m n c d held h hm0 hmn hn us hup sig hsl hver i a b k hsplit
+  exact ⟨a, b, k, cs', hsplit, hrest⟩
 
 end HC.BlockNew
